@@ -126,6 +126,10 @@ func interpolateMapValues[K comparable, V any, M ~map[K]V](tf stringTransformer,
 // interpolateMap applies interpolateAny over both keys and values of any type
 // of map. The map is altered in-place.
 func interpolateMap[K comparable, V any, M ~map[K]V](tf stringTransformer, m M) error {
+	// Build the interpolated entries separately, then replace the contents of m.
+	// Inserting renamed keys into m while ranging over it would let the range
+	// visit some of the new entries, interpolating them a second time.
+	interpolated := make(M, len(m))
 	for k, v := range m {
 		// We interpolate both keys and values.
 		intk, err := interpolateAny(tf, k)
@@ -139,11 +143,12 @@ func interpolateMap[K comparable, V any, M ~map[K]V](tf stringTransformer, m M) 
 			return err
 		}
 
-		// If the key changed due to interpolation, delete the old key.
-		if k != intk {
-			delete(m, k)
-		}
-		m[intk] = intv
+		interpolated[intk] = intv
+	}
+
+	clear(m)
+	for k, v := range interpolated {
+		m[k] = v
 	}
 	return nil
 }
